@@ -233,10 +233,16 @@ def build_object(cfg: dict):
     from bluebonnet.flow import IdealReservoir, SinglePhaseReservoir  # noqa: PLC0415
 
     tab = table(cfg["table"])
-    fp = rdrv.flow_properties(tab, cfg["pi"])
+    pi = cfg["pi"]
+    if cfg.get("f32table"):
+        # a table read into single precision (a memory-saving down-cast of a large frame) and the initial pressure taken from its
+        # pressure column: the solver still works and stores in double precision
+        tab = tab.astype(np.float32)
+        pi = np.float32(pi)
+    fp = rdrv.flow_properties(tab, pi)
     cls = IdealReservoir if cfg["kind"] == "ideal" else SinglePhaseReservoir
     nx = np.dtype(cfg["nx_dtype"]).type(cfg["nx"]) if cfg.get("nx_dtype") else cfg["nx"]
-    return cls(nx, cfg["pf"], cfg["pi"], fp), fp, tab
+    return cls(nx, cfg["pf"], pi, fp), fp, tab
 
 
 def level_events(kind: str, fp, time, u: np.ndarray, pf_series, tid: int, flagged: int = 0, max_levels: int = 400,
